@@ -113,8 +113,11 @@ pub fn expand(input: &DeriveInput, trait_name: &'static str) -> Result<TokenStre
         let error = quote! {
             derive_more::TryIntoError<#reference_with_lifetime #input_type #ty_generics>
         };
-        // `Self` in a field type means the deriving type, not the tuple implemented for.
+        // `Self` in a field type, or in the type's own bounds, means the deriving type, not the tuple
+        // implemented for.
         let self_ty = quote! { #input_type #ty_generics };
+        let impl_generics = crate::utils::replace_self(&impl_generics, &self_ty);
+        let where_clause = crate::utils::replace_self(&where_clause, &self_ty);
         let original_types: Vec<_> = original_types
             .iter()
             .map(|ty| crate::utils::replace_self(ty, &self_ty))
